@@ -28,13 +28,22 @@ func cnrBlob(tag string, verLen int, owner []byte) []byte {
 
 // cnrBlobOf: the same with a given owner-ID checksum (two containers of ONE owner share all 25 owner bytes).
 func cnrBlobOf(tag string, verLen int, owner, cksum []byte) []byte {
+	return cnrBlobTail(tag, verLen, owner, cksum, 8)
+}
+
+// cnrBlobTail: the same with tail bytes after the owner ID (0: the owner is the last field, the shortest blob
+// the contract can take an owner from).
+func cnrBlobTail(tag string, verLen int, owner, cksum []byte, tail int) []byte {
 	blob := append([]byte{}, vBytes(tag+"_head", 1)...)
 	blob = append(blob, byte(verLen))
 	blob = append(blob, vBytes(tag+"_ver", verLen+4)...)
 	blob = append(blob, 0x35)
 	blob = append(blob, owner...)
 	blob = append(blob, cksum...)
-	return append(blob, vBytes(tag+"_tail", 8)...)
+	if tail == 0 {
+		return blob
+	}
+	return append(blob, vBytes(tag+"_tail", tail)...)
 }
 
 func ownerID(blob []byte, verLen int) []byte {
